@@ -98,74 +98,183 @@ def run(res, tier):
     # ------------------------------------------------------------------ R-CHECK
     res.rule("R-CHECK", "each check: whole vector scanned, bad branch warns, resets under the autoreset guard, re-counts, returns", floor=3)
     want = {"mj_checkPos": ("qpos", "mjWARN_BADQPOS"), "mj_checkVel": ("qvel", "mjWARN_BADQVEL"), "mj_checkAcc": ("qacc", "mjWARN_BADQACC")}
+    from .. import norm, linform as _lf
+    from .c26 import counted_loop
+    AUTORESET = "m->opt.disableflags & mjDSBL_AUTORESET"
     for fname, (field, warn) in want.items():
-        fn = uf.funcs[fname]
+        # canonical view: static helpers analysed in place, early exits nested.  A helper that searches (returns from inside
+        # its loop) stays a call; its result then stands for "a bad value was found" (see found_result below).
+        fn = norm.canon(uf, fname)
+        body = cir.body(fn)
         problems = []
-        bad_ifs = [n for n in cir.walk(fn) if n.get("k") == "IfStmt" and any(cir.callee(c) == "mju_isBad" for c in cir.calls(cir.kids(n)[0]))]
-        if len(bad_ifs) != 1:
-            raise AnalysisError(f"{fname}: expected exactly one mju_isBad test")
-        bi = bad_ifs[0]
-        # the tested value comes from d-><field> (directly or via a const local alias)
-        arg = cir.args(next(c for c in cir.calls(cir.kids(bi)[0]) if cir.callee(c) == "mju_isBad"))[0]
+        closure = {fname: fn}
+        work = [fn]
+        while work:
+            f_ = work.pop()
+            for c in cir.calls(f_):
+                h = uf.funcs.get(cir.callee(c))
+                if h is not None and h.get("storageClass") == "static" and h.get("n") not in closure:
+                    closure[h.get("n")] = norm.canon(uf, h.get("n"))
+                    work.append(closure[h.get("n")])
+        tests = [(n_, f_, c) for n_, f_ in closure.items() for c in cir.calls(f_, "mju_isBad")]
+        if len(tests) != 1:
+            raise AnalysisError(f"{fname}: expected exactly one mju_isBad test in the function and its static helpers, found {len(tests)}")
+        tname, tfn, tcall = tests[0]
+        tbody = cir.body(tfn)
+        # ---- what is tested: d-><field>, directly, through a local alias or through the helper's pointer parameter
+        arg = cir.args(tcall)[0]
         base = cir.strip(arg)
         while base is not None and base.get("k") == "ArraySubscriptExpr":
             base = cir.strip(cir.kids(base)[0])
         src = cir.text(base)
-        if base is not None and base.get("k") == "DeclRefExpr":
-            for x in cir.walk(fn):
-                if x.get("k") == "VarDecl" and x.get("n") == src and x.get("init"):
-                    src = cir.text([c for c in cir.kids(x) if c][-1])
+        helper_call = None
+        if tname != fname:
+            hc = [c for c in cir.calls(fn, tname)]
+            if len(hc) != 1:
+                raise AnalysisError(f"{fname}: the scanning helper {tname} is not called exactly once")
+            helper_call = hc[0]
+        for _round in range(3):
+            if base is not None and base.get("k") == "DeclRefExpr":
+                r_ = base.get("ref") or {}
+                if r_.get("k") == "ParmVarDecl" and helper_call is not None:
+                    pn_ = [p_.get("n") for p_ in cir.params(uf.funcs[tname])]
+                    if r_.get("n") in pn_:
+                        base = cir.strip(cir.args(helper_call)[pn_.index(r_.get("n"))])
+                        src = cir.text(base)
+                        continue
+                for x in list(cir.walk(tfn)) + list(cir.walk(fn)):
+                    if x.get("k") == "VarDecl" and x.get("id") == r_.get("id") and x.get("init"):
+                        base = cir.strip([c for c in cir.kids(x) if c][-1])
+                        src = cir.text(base)
+                        break
         if src != f"d->{field}":
             problems.append(f"tests `{src}` instead of d->{field}")
-        # the scan covers the whole vector: the enclosing loop bound is m->n* or the awake count under the sleep filter
-        loops = [n for n in cir.walk(fn) if n.get("k") == "ForStmt" and any(x is bi for x in cir.walk(n))]
+        # ---- the scan covers the whole vector: the enclosing loop counts from 0 to m->n* (or the awake count under the filter)
+        loops = [n for n in cir.walk(tbody) if n.get("k") in ("ForStmt", "WhileStmt") and any(x is tcall for x in cir.walk(n))]
         if len(loops) != 1:
             problems.append("the test is not inside exactly one loop")
         else:
-            bound = cir.text(cir.kids(loops[0])[2])
-            decl = {x.get("n"): cir.text([c for c in cir.kids(x) if c][-1]) for x in cir.walk(fn) if x.get("k") == "VarDecl" and x.get("init")}
-            lim = bound.split("<")[-1].strip()
-            lim = decl.get(lim, lim)
-            full = {"qpos": "m->nq", "qvel": "m->nv", "qacc": "m->nv"}[field]
-            if not (lim == full or (full in lim and "awake" in lim)):
-                problems.append(f"loop bound `{bound}` (= {lim}) does not cover {full}")
-            init = cir.kids(loops[0])[0]
-            start = None
-            if init is not None and init.get("k") == "DeclStmt":
-                vd = [x for x in cir.kids(init) if x is not None and x.get("k") == "VarDecl"]
-                if vd and vd[0].get("init"):
-                    start = cir.text([c for c in cir.kids(vd[0]) if c][-1])
-            elif init is not None and init.get("k") == "BinaryOperator":
-                start = cir.text(cir.kids(init)[1])
-            if start != "0":
-                problems.append(f"scan starts at `{start}`, not 0")
-        # events of the bad branch
-        then = cir.kids(bi)[1]
-        pseudo = {"k": "FunctionDecl", "n": fname + ".bad", "i": [then if then.get("k") == "CompoundStmt" else {"k": "CompoundStmt", "i": [then]}]}
-        evs = pipeline.Flattener(uf, inline=set()).flatten(pseudo, {})
-        guard = (("m->opt.disableflags & mjDSBL_AUTORESET", False),)
-        calls = [(e[1], e[-1]) for e in evs if e[0] == "call"]
-        warn_calls = [c for c in cir.calls(then, "mj_warning")]
-        if not warn_calls or cir.text(cir.args(warn_calls[0])[1]) != warn or ("mj_warning", ()) not in calls:
+            lp = loops[0]
+            cvars = [x for x in cir.walk(cir.kids(lp)[2] if lp.get("k") == "ForStmt" else cir.kids(lp)[0]) if x.get("k") == "DeclRefExpr"
+                     and (x.get("ref") or {}).get("k") == "VarDecl"]
+            cl = None
+            for cv in cvars:
+                c_ = counted_loop(tbody, lp, cv["ref"]["id"])
+                if not c_["problems"] and c_["bound"] is not None:
+                    cl = c_
+                    break
+            if cl is None:
+                problems.append("the scan loop does not count a local up by one to a bound")
+            else:
+                decl = {x.get("n"): cir.text([c for c in cir.kids(x) if c][-1]) for x in cir.walk(tfn) if x.get("k") == "VarDecl" and x.get("init")}
+                lim = decl.get(cl["bound"], cl["bound"])
+                full = {"qpos": "m->nq", "qvel": "m->nv", "qacc": "m->nv"}[field]
+                if not (lim == full or (full in lim and "awake" in lim)):
+                    problems.append(f"loop bound `{cl['bound']}` (= {lim}) does not cover {full}")
+                if cl["start"] != "0":
+                    problems.append(f"scan starts at `{cl['start']}`, not 0")
+        # ---- which guards mean "a bad value was found"
+        found_var = None
+        none_val = None
+        if helper_call is not None:
+            hraw = closure[tname]
+            hb = cir.body(hraw)
+            lits = set()
+            okh = True
+            for r_ in cir.walk(hb):
+                if r_.get("k") != "ReturnStmt" or not cir.kids(r_):
+                    continue
+                gs = [(cir.text(c_), p_) for c_, p_ in (norm.guards(hb, r_) or [])]
+                if any(t.startswith("mju_isBad(") and p_ for t, p_ in gs):
+                    continue
+                v_ = F.ceval(cir.kids(r_)[0], {})
+                if v_ is None:
+                    okh = False
+                lits.add(v_)
+            if not okh or len(lits) != 1:
+                raise AnalysisError(f"{tname}: cannot summarise the scan result (not-found returns {sorted(map(str, lits))})")
+            none_val = lits.pop()
+            for x in cir.walk(fn):
+                if x.get("k") == "VarDecl" and x.get("init") and any(y is helper_call for y in cir.walk(x)):
+                    found_var = x.get("n")
+                elif x.get("k") == "BinaryOperator" and x.get("op") == "=" and any(y is helper_call for y in cir.walk(cir.kids(x)[1])):
+                    found_var = cir.text(cir.kids(x)[0])
+            if found_var is None:
+                raise AnalysisError(f"{fname}: the result of {tname} is not bound to a local")
+
+        def split_guards(n):
+            """(is a bad path, extra atoms beyond loop conditions and the badness test)"""
+            bad_, extra = False, []
+            contradiction = False
+            for c_, pol, st_ in norm.guards(body if helper_call is not None or tname == fname else tbody, n, stmts=True) or ():
+                if st_ is not None and st_.get("k") in ("ForStmt", "WhileStmt", "DoStmt"):
+                    continue
+                t = cir.text(c_)
+                if t.startswith("mju_isBad("):
+                    if pol:
+                        bad_ = True
+                    else:
+                        contradiction = True
+                    continue
+                if found_var is not None and cir.vars_in(c_) == {found_var}:
+                    at_none = F.ceval(c_, {found_var: none_val})
+                    at_zero = F.ceval(c_, {found_var: 0})
+                    if at_none is not None and at_zero is not None and bool(at_none) != pol and bool(at_zero) == pol:
+                        bad_ = True
+                        continue
+                    if at_none is not None and bool(at_none) == pol and at_zero is not None and bool(at_zero) != pol:
+                        contradiction = True
+                        continue
+                extra.append((t, pol))
+            return (bad_ and not contradiction), extra
+        evs = []      # (kind, node, extra guards) of the bad region, in execution order
+        for n in cir.walk(body):
+            k_ = n.get("k")
+            kind = None
+            if cir.is_call(n) and cir.callee(n) in ("mj_warning", "mj_resetData", "mj_forward"):
+                kind = cir.callee(n)
+            elif k_ == "UnaryOperator" and n.get("op") == "++" and cir.text(cir.kids(n)[0]) == f"d->warning[{warn}].number":
+                kind = "count"
+            elif k_ == "CompoundAssignOperator" and cir.text(cir.kids(n)[0]) == f"d->warning[{warn}].number":
+                kind = "count"
+            elif k_ == "ReturnStmt":
+                kind = "return"
+            if kind is None:
+                continue
+            isbad, extra = split_guards(n)
+            if isbad:
+                evs.append((kind, n, tuple(extra)))
+        kinds = [e[0] for e in evs]
+        guard = ((AUTORESET, False),)
+
+        def first(kind, g=None):
+            for i, e in enumerate(evs):
+                if e[0] == kind and (g is None or e[2] == g):
+                    return i
+            return None
+        iw = first("mj_warning", ())
+        if iw is None or cir.text(cir.args(evs[iw][1])[1]) != warn:
             problems.append(f"bad branch does not raise mj_warning(d, {warn}, ...) unconditionally")
-        if ("mj_resetData", guard) not in calls:
+        ir = first("mj_resetData", guard)
+        if ir is None:
             problems.append("mj_resetData is not guarded exactly by !mjDISABLED(mjDSBL_AUTORESET)")
-        elif calls.index(("mj_resetData", guard)) < calls.index(("mj_warning", ())):
+        elif iw is not None and ir < iw:
             problems.append("reset happens before the warning is raised")
-        sets = [e for e in evs if e[0] == "set" and f"d->warning[{warn}].number" in e[1]]
-        incs = [n for n in cir.walk(then) if n.get("k") == "UnaryOperator" and n.get("op") == "++" and
-                cir.text(cir.kids(n)[0]) == f"d->warning[{warn}].number"]
-        reset_line = next((c.get("line") for c in cir.calls(then, "mj_resetData")), None)
-        if not incs or (reset_line is not None and incs[0].get("line") < reset_line):
+        ic = [i for i, e in enumerate(evs) if e[0] == "count" and e[2] == ()]
+        if not ic or (ir is not None and max(ic) < ir):
             problems.append(f"the warning counter d->warning[{warn}].number is not re-incremented after the reset (reset zeroes it)")
-        if not any(e[0] == "return" and not e[-1] for e in evs):
+        in_loop_bad = helper_call is None
+        if in_loop_bad and first("return", ()) is None:
             problems.append("bad branch does not return (bad values would be scanned/propagated further)")
-        if fname == "mj_checkAcc" and ("mj_forward", guard) not in calls:
-            problems.append("mj_checkAcc does not recompute mj_forward after the reset under the same guard")
+        if fname == "mj_checkAcc":
+            if_ = first("mj_forward", guard)
+            if if_ is None or (ir is not None and if_ < ir):
+                problems.append("mj_checkAcc does not recompute mj_forward after the reset under the same guard")
         if problems:
-            res.bad("R-CHECK", fname, FWD, bi.get("line"), "; ".join(problems))
+            res.bad("R-CHECK", fname, FWD, tcall.get("line"), "; ".join(problems))
         else:
-            res.ok("R-CHECK", fname, {"events": [pipeline.fmt(e) for e in evs][:8]})
+            res.ok("R-CHECK", fname, {"events": [f"{e[0]}" + (f" [if {' && '.join((a if p else '!(' + a + ')') for a, p in e[2])}]" if e[2] else "")
+                                                 for e in evs][:8], "scan_in": tname})
 
     # ------------------------------------------------------------------ R-FINITE
     res.rule("R-FINITE", "mju_isBad truth table", floor=8)
